@@ -38,15 +38,17 @@ ALL_STYLES = ("std", "braced", "ws", "parens", "bare")
 
 def plan(tier, mk):
     """generation jobs: battery types, Scope, MaxMut, MutDepth, MaxFrames (documents in a row on one reused decoder), styles, sigmas"""
-    reuse, pos, combo = mk["reuse"], mk["pos"], mk["combo"]
-    base = [k for k in mk["all"] if k not in reuse and k not in pos and k not in combo]
+    reuse, pos, combo, wide = mk["reuse"], mk["pos"], mk["combo"], mk["wide"]
+    base = [k for k in mk["all"] if k not in reuse and k not in pos and k not in combo and k not in wide]
+    # wide bodies (MessagePack size classes): instances only - a mutant of a 300 entry document is nothing new
+    wjob = [dict(name="wide", keys=wide, scope=0, max_mut=0, mut_depth=0, frames=1, styles=("std",), sigmas=1)]
     jobs = []
     if tier == "quick":
         for g in range(GROUPS):      # interleaved so that the heavy types are spread over the groups
             jobs.append(dict(name="gen%d" % g, keys=base[g::GROUPS], scope=0, max_mut=1, mut_depth=2, frames=2, styles=ALL_STYLES, sigmas=1))
         # collections whose elements are read by reset() recognizers: mutations on the collection and on its elements
-        for g in range(GROUPS):
-            jobs.append(dict(name="reuse%d" % g, keys=reuse[g::GROUPS], scope=0, max_mut=1, mut_depth=1, frames=2,
+        for g in range(GROUPS - 1):      # (three groups: with the single wide job the jobs fill whole batches of GROUPS)
+            jobs.append(dict(name="reuse%d" % g, keys=reuse[g::GROUPS - 1], scope=0, max_mut=1, mut_depth=1, frames=2,
                              styles=("std", "braced", "ws"), sigmas=1))
         # every primitive kind in every structural position: boundary values sampled from the pools per document
         for g in range(GROUPS):
@@ -56,7 +58,7 @@ def plan(tier, mk):
         for g in range(GROUPS):
             jobs.append(dict(name="combo%d" % g, keys=combo[g::GROUPS], scope=0, max_mut=1, mut_depth=2, frames=2,
                              styles=("std", "braced"), sigmas=1))
-        return jobs
+        return jobs + wjob
     for g in range(GROUPS):
         jobs.append(dict(name="gen%d" % g, keys=base[g::GROUPS], scope=1, max_mut=1, mut_depth=3, frames=2, styles=ALL_STYLES, sigmas=2))
     for g in range(GROUPS):
@@ -67,6 +69,7 @@ def plan(tier, mk):
         jobs.append(dict(name="combo%d" % g, keys=combo[g::GROUPS], scope=1, max_mut=1, mut_depth=3, frames=2,
                          styles=("std", "braced", "ws"), sigmas=1))
     # second-order mutants (two operators in a row), except for the types with model-value fields (too many)
+    jobs += wjob
     two = [k for k in base if k not in ("WithValue", "BodyValue", "HdrValue", "ModelVal", "VecNest", "Coll")]
     n2 = 2 * GROUPS
     for g in range(n2):
@@ -92,7 +95,7 @@ CHUNK = 150000
 
 COMBO_RS = os.path.join(core.ROOT, "harness", "h_core", "src", "form_combos.rs")
 COMBO_TLA = os.path.join(core.SPECS, "FormDocCombos.tla")
-_PRIM_RS = {"i32c": "i32", "boolc": "bool", "stringc": "String", "level": "Level", "unit": "()", "value": "Value"}
+_PRIM_RS = {"i32": "i32", "i32k": "i32", "i32c": "i32", "boolc": "bool", "stringc": "String", "level": "Level", "unit": "()", "value": "Value"}
 
 
 def _ty_rs(t):
@@ -102,6 +105,8 @@ def _ty_rs(t):
         return "Vec<%s>" % _ty_rs(t["e"])
     if t["c"] == "opt":
         return "Option<%s>" % _ty_rs(t["e"])
+    if t["c"] == "map":
+        return "HashMap<%s, %s>" % (_ty_rs(t["key"]), _ty_rs(t["val"]))
     if t["c"] == "named":
         return t["n"]
     raise core.ToolError(str(t))
@@ -110,8 +115,11 @@ def _ty_rs(t):
 def _ty_tla(t):
     if t["c"] == "prim":
         return '[c |-> "prim", p |-> "%s"]' % t["p"]
+    wide = ", wide |-> %d" % t["wide"] if "wide" in t else ""
+    if t["c"] == "map":
+        return '[c |-> "map", key |-> %s, val |-> %s%s]' % (_ty_tla(t["key"]), _ty_tla(t["val"]), wide)
     if t["c"] in ("vec", "opt"):
-        return '[c |-> "%s", e |-> %s]' % (t["c"], _ty_tla(t["e"]))
+        return '[c |-> "%s", e |-> %s%s]' % (t["c"], _ty_tla(t["e"]), wide)
     return '[c |-> "named", n |-> "%s"]' % t["n"]
 
 
@@ -230,6 +238,22 @@ def emission_cells():
     ]
 
 
+def wide_cells():
+    """MessagePack size classes of record bodies: a struct with 16 / 17 labelled fields (map16), and wide HashMap / Vec
+    fields (16 / 17 entries) as slot, attribute value and delegated body"""
+    K, I = _P("i32k"), _P("i32")
+    wmap = lambda n: {"c": "map", "key": I, "val": I, "wide": n}
+    wvec = lambda n: {"c": "vec", "e": I, "wide": n}
+    return [
+        ("KW16", [("f%02d" % i, "slot", K) for i in range(16)]),
+        ("KW17", [("f%02d" % i, "slot", K) for i in range(17)]),
+        ("KWB", [("n", "slot", K), ("b", "body", wmap(16))]),
+        ("KWA", [("a", "attr", wmap(16)), ("x", "slot", K)]),
+        ("KWS", [("m", "slot", wmap(17)), ("v", "slot", wvec(16)), ("x", "slot", K)]),
+        ("KWH", [("h", "header", wmap(16)), ("hv", "header", wvec(17)), ("x", "slot", K)]),
+    ]
+
+
 def emission_fields(shape, spec):
     tuple_ = shape == "tuple"
     fields = []
@@ -284,6 +308,9 @@ def combo_table():
         fields, sh = emission_fields(*ecells[i])
         variants.append({"vname": "V%d" % j, "tag": "V%d" % j, "tag_attr": False, "shape": sh, "fields": fields, "cell": ["emission", "", "", 0, ""]})
     out.append(("KOE1", {"kind": "enum", "variants": variants}))
+    for key, spec in wide_cells():
+        fields, sh = emission_fields("named", spec)
+        out.append((key, {"kind": "struct", "tag": key, "tag_attr": False, "shape": sh, "fields": fields, "cell": ["wide", "", "", 0, ""]}))
     return out
 
 
@@ -460,6 +487,10 @@ class Sigma:
             return 0
         if c == "c":
             return int(v["s"])
+        if c == "S":
+            return "w" * int(v["s"])
+        if c == "D":
+            return bytes(i % 251 for i in range(int(v["s"])))
         return self.perm[c][int(v["s"])]
 
 
@@ -503,7 +534,7 @@ def leaf_text(v, sg):
         return ""
     if c in INT_CLASSES:
         return str(x)
-    if c == "d":
+    if c in ("d", "D"):
         return "%" + base64.b64encode(x).decode()
     if c == "f":
         return fmt_float(x)
@@ -571,7 +602,7 @@ def built(v, sg):
         if 0 <= x < 2 ** 64:
             return {"k": "u64", "v": x}
         return {"k": "bigint" if x < 0 else "biguint", "v": str(x)}
-    if c == "d":
+    if c in ("d", "D"):
         return {"k": "data", "v": list(x)}
     if c == "f":
         return {"k": "f64", "v": x}
@@ -599,7 +630,7 @@ class Schema:
                 return float(v)
             if p in ("bigint", "biguint"):
                 return str(v)
-            if p == "blob":
+            if p in ("blob", "wblob"):
                 return list(v)
             return v
         if c == "opt" and t["e"]["c"] == "opt":
@@ -685,6 +716,7 @@ def model_keys(wd):
         _KEYS["all"] = sorted(json.loads(res["keys"].tagged["SCHEMA"][0]).keys())
         _KEYS["pos"] = [k for k in _KEYS["all"] if "_" in k]
         _KEYS["combo"] = [k for k in _KEYS["all"] if re.match(r"^KO?E?\d+$", k)]
+        _KEYS["wide"] = [k for k in _KEYS["all"] if re.match(r"^(KW|WMap|WVec|WStr$|WBlob$)", k)]
         s = open(os.path.join(core.SPECS, "FormDoc.tla")).read()
         _KEYS["reuse"] = re.findall(r'"([^"]+)"', re.search(r"ReuseKeys == \{(.*?)\}", s, re.S).group(1))
     return _KEYS
@@ -865,6 +897,17 @@ PANIC_DOC = {"kind": "doc", "p": True, "d": True, "m": False, "c": False, "vd": 
 PRINTERS = ("std", "compact", "pretty")
 
 
+def marker_class(b):
+    """the size class of the first MessagePack marker byte"""
+    if b is None:
+        return ""
+    if 0x80 <= b <= 0x8f:
+        return "mapfix"
+    if 0x90 <= b <= 0x9f:
+        return "arrayfix"
+    return {0xde: "map16", 0xdf: "map32", 0xdc: "array16", 0xdd: "array32"}.get(b, "other")
+
+
 def explain_drift(what, ty, detail):
     """Differences between the reference reader M and the real code (on which both real paths agree) that come from what
     M deliberately does not model: it has no arithmetic and no URI syntax.  Everything else counts as model drift."""
@@ -956,6 +999,11 @@ class Table:
                 if tb is not None and not (acc(tb) and canon(tb["v"]) == canon(x) and canon(r.get("typed_bridge_into")) == canon(tb)):
                     st["typed_value_through_bridge_differs"] += 1
                     self.bridge_types[ty] += 1
+                mk_exp, mk_obs = d.get("marker", ""), marker_class(r.get("mp_first"))
+                if mk_exp:
+                    st["msgpack_body_marker:" + mk_exp] += 1
+                    if mk_obs != mk_exp:
+                        self.note_drift("MessagePack body marker: model %s, writer %s" % (mk_exp, mk_obs), ty, {"x": x})
                 if not r.get("print_model_same", True):
                     st["typed_print_differs_from_model_print"] += 1
                 mm = r.get("mp_as_model")
